@@ -196,7 +196,7 @@ func lemmaCmpTrans(a, b, c Object) (ab, bc, ac int, eab, ebc, eac bool) {
 
 //@ func (SmallMap).Set
 //@   uses cmpOrder
-//@   requires smSorted(m)
+//@   requires @C11 smSorted(m)
 //@   modifies *
 //@   witness fnd = callresult1 after get#1
 //@   witness pos = callresult2 after get#1
@@ -240,7 +240,8 @@ func lemmaCmpTrans(a, b, c Object) (ab, bc, ac int, eab, ebc, eac bool) {
 //@   property C19
 
 //@ func (*Environment).Set
-//@   requires e != nil && val != nil
+//@   requires e != nil
+//@   requires @C19 val != nil
 //@   modifies *
 //@   nosafety
 //@   maypanic *
@@ -254,7 +255,8 @@ func lemmaCmpTrans(a, b, c Object) (ab, bc, ac int, eab, ebc, eac bool) {
 //@   property C05
 
 //@ func (*Environment).MakeRegister
-//@   requires e != nil && 0 <= e.numReg
+//@   requires e != nil
+//@   requires @C05,C07 0 <= e.numReg
 //@   requires capacity:: e.numReg < 8
 //@   modifies e.numReg, e.registers, map token.interning
 //@   trustframe
@@ -277,7 +279,7 @@ func lemmaCmpTrans(a, b, c Object) (ab, bc, ac int, eab, ebc, eac bool) {
 //@   property C05
 
 //@ func NewFunctionEnvironment
-//@   requires current != nil && (streq(current.cacheKey, fn.CacheKey) || fn.Env != nil)
+//@   requires @C05,C07 current != nil && (streq(current.cacheKey, fn.CacheKey) || fn.Env != nil)
 //@   ensures  fresh:: result0 != nil && !old(allocated(result0)) && result0.numReg == 0
 //@   property C05
 
